@@ -266,3 +266,27 @@ def fragment_packages(n_packages: int, ops_per_package: int, seed: int, avoid: T
             continue
         jobs.append({"schema": S_ABS, "queries": q, "config": {"convert_to_snake_case": bool(pi % 2)}, "ops": [f"F{pi}x{i}" for i in range(len(chosen))]})
     return jobs
+
+
+# ---------------------------------------------------------------------------------------------------
+# I x W: input object types (C06 / C03)
+IN_BASES = {"String": "String", "Int": "Int", "Float": "Float", "Boolean": "Boolean", "ID": "ID", "Enum": "Color", "In": "Leaf", "Scalar": "Blob"}
+
+
+def inputs_schema(depth: int) -> str:
+    lines = []
+    for kind, base in IN_BASES.items():
+        fl = []
+        for i, tpl in enumerate(wrapper_stacks(depth)):
+            fl.append(f"  w{i}: {tpl.replace('T', base)}")
+        lines.append(f"input W{kind} {{\n" + "\n".join(fl) + "\n}")
+    return (
+        "type Query { ping(a: WString, b: WInt, c: WFloat, d: WBoolean, e: WID, f: WEnum, g: WIn, h: WScalar, n: Names, r: Rec, d2: Defs): Int }\n"
+        "enum Color { RED GREEN in }\nscalar Blob\n"
+        "input Leaf { a: Int!, b: String, c: Color }\n"
+        "input Rec { v: Int, next: Rec, many: [Rec!], leaf: Leaf! }\n"
+        "input Names { camelCase: Int, in: String, _under: Int, copy: Boolean, json: Int!, model_config: String, __dunder: Int, Upper: Int, x1y: Int, class: Color }\n"
+        "input Defs { i: Int = 3, ni: Int! = 4, s: String = \"x\", b: Boolean = true, f: Float = 1.5, e: Color = GREEN, ne: Color! = RED, l: [Int!] = [1, 2], n: Int = null,\n"
+        "  o: Leaf = {a: 1}, req: Int!, lo: [Int] = [1, null] }\n"
+        + "\n".join(lines) + "\n"
+    )
